@@ -84,6 +84,15 @@ Theorem C16_paint_page_spec :
 Proof. exact paint_page_spec. Qed.
 Print Assumptions C16_paint_page_spec.
 
+(* without overflow != visible boxes the stacking contexts are exactly CSS's
+   (positioned with integer z-index, opacity < 1, transform): pure Appendix E *)
+Theorem C16_paint_order_css :
+  forall zsort, z_then_tree_order css_level zsort ->
+  forall b, wf_shape b = true -> (forall x, In x (boxes b) -> bclip (binfo_of x) = false) ->
+  paint (from_box b) = Ok (spec_paint css_forms_ctx css_level zsort b).
+Proof. exact paint_order_css. Qed.
+Print Assumptions C16_paint_order_css.
+
 (* never panics on laid-out trees (the two panic sites of drawInlineLevel and
    the nil-box dereferences are unreachable) *)
 Theorem C16_paint_never_panics : forall b, wf_shape b = true -> exists evs, paint (from_box b) = Ok evs.
@@ -165,12 +174,20 @@ Theorem C16_partition_permutation : forall i kids cc blocks floats bac,
 Proof. exact new_context_perm. Qed.
 Print Assumptions C16_partition_permutation.
 
+(* every box of a sub-tree belongs to exactly one territory: the boxes its own
+   (pseudo) stacking context paints, or the territory of exactly one of the
+   boxes hoisted to it (box-level half of every_box_painted_once) *)
+Theorem C16_boxes_partition : forall b,
+  Permutation (boxes b) (own b ++ flat_map terr (hoisted impl_forms_ctx b)).
+Proof. exact boxes_partition. Qed.
+Print Assumptions C16_boxes_partition.
+
 (* ---- stated, proved only in part (the parts are the theorems above), and
    tested on the model's events of every harness case (Check/C16.v code 8) ---- *)
 
 (* every_box_painted_once: no event is issued twice.
    Proved part: C16_partition_permutation (no context lost or duplicated by
-   NewStackingContext), C16_event_ids_in_subtree. *)
+   NewStackingContext), C16_boxes_partition, C16_event_ids_in_subtree. *)
 Definition C16_every_box_painted_once_statement : Prop :=
   forall zsort, z_then_tree_order css_level zsort ->
   forall b, wf_shape b = true -> NoDup (ids b) ->
